@@ -7,6 +7,7 @@ It handles all the details of formatting, import registration, and docstring gen
 for these constructs.
 """
 
+import json
 from typing import List, Tuple
 
 from pyopenapi_gen.context.render_context import RenderContext
@@ -296,7 +297,7 @@ class PythonConstructRenderer:
             for name, type_hint, _, field_desc in required_fields:
                 line = f"{name}: {type_hint}"
                 if field_desc:
-                    comment_text = field_desc.replace("\n", " ")
+                    comment_text = " ".join(field_desc.splitlines())  # no line boundary may survive in a comment
                     line += f"  # {comment_text}"
                 writer.write_line(line)
 
@@ -306,7 +307,7 @@ class PythonConstructRenderer:
                     context.add_import("dataclasses", "field")  # Ensure field is imported
                 line = f"{name}: {type_hint} = {default_expr}"
                 if field_desc:
-                    comment_text = field_desc.replace("\n", " ")
+                    comment_text = " ".join(field_desc.splitlines())  # no line boundary may survive in a comment
                     line += f"  # {comment_text}"
                 writer.write_line(line)
 
@@ -321,7 +322,7 @@ class PythonConstructRenderer:
             writer.write_line("key_transform_with_load = {")
             writer.indent()
             for api_field, python_field in sorted(field_mappings.items()):
-                writer.write_line(f'"{api_field}": "{python_field}",')
+                writer.write_line(f"{json.dumps(api_field, ensure_ascii=False)}: {json.dumps(python_field)},")
             writer.dedent()
             writer.write_line("}")
 
@@ -330,7 +331,7 @@ class PythonConstructRenderer:
             writer.indent()
             # Reverse the mapping for dump
             for api_field, python_field in sorted(field_mappings.items(), key=lambda x: x[1]):
-                writer.write_line(f'"{python_field}": "{api_field}",')
+                writer.write_line(f"{json.dumps(python_field)}: {json.dumps(api_field, ensure_ascii=False)},")
             writer.dedent()
             writer.write_line("}")
 
